@@ -182,6 +182,22 @@ def r3(ck, F):
         else:
             ck.bad("C11.R3", "%s: metadata.target.starts_with(directive.target); mismatch never cares" % nm, where(b.raw["sp"]),
                    "starts_with receiver/pattern reversed or a non-matching prefix can still care", fn=b.path)
+        if "cares_about_target" in fn:
+            # the target-only matcher (would_enable) must skip directives that carry field names, as real filtering of a
+            # field-less probe does: every accepting row has tested that field_names is empty
+            def empty_known(p):
+                for c in p.conds:
+                    t = show(c[0])
+                    if "field_names" in t and ("is_empty(" in t or "len(" in t):
+                        return True
+                return False
+            acc = [p for p in PathEval(b).run() if p.end == "return" and show(p.ret) != "0"]
+            k = "cares_about_target: a directive with field names never matches a bare target (would_enable agrees with filtering)"
+            if acc and all(empty_known(p) for p in acc):
+                ck.ok("C11.R3", k, fn=b.path)
+            else:
+                ck.bad("C11.R3", k, where(b.raw["sp"]), "a row accepts without having looked at field_names: Targets parsed from `t[{f}]=lvl` make would_enable "
+                       "answer from a directive that real filtering of a field-less event skips", fn=b.path)
         if "cares_about_target" not in fn and "env::" not in fn:
             # field names only constrain events
             span_rows = [r for c, r in rows if c.get("is_event") is False and c.get("starts_with") is not False]
